@@ -30,6 +30,7 @@ PROPS = {
         assumptions=ASSUME_WB + ["known finding K1 (`---` vs `/-/-/-/` lines) is excluded by construction from the main campaign and probed by its own generator"],
         stages=[
             dict(name="changed", run="^TestC02_Changed$", quick=1500, thorough=20000, shards_quick=4, shards_thorough=16),
+            dict(name="huge_line_counts", run="^TestC02_HugeLineCounts$", quick=1, thorough=1, shards_quick=4, shards_thorough=16),
             dict(name="k1probe", run="^TestC02K1_", quick=1500, thorough=20000, shards_quick=1, shards_thorough=1),
             dict(name="fuzz", engine="fuzz", target="FuzzC02Changed", run="FuzzC02Changed", fuzztime=60, thorough_only=True),
         ],
@@ -206,6 +207,7 @@ PROPS = {
         assumptions=["oracles R1-R4 of DESIGN §6/C13 are implemented independently of the diff code; the report grammar parsed is the NO_COLOR one"],
         stages=[
             dict(name="exhaustive", run="^TestC13_Exhaustive$", quick=1, thorough=1, shards_quick=4, shards_thorough=16),
+            dict(name="huge_line_counts", run="^TestC13_HugeLineCounts$", quick=1, thorough=1, shards_quick=4, shards_thorough=16),
             dict(name="random", run="^TestC13_(Random|Large)$", quick=2500, thorough=30000, shards_quick=4, shards_thorough=16),
             dict(name="fuzz", engine="fuzz", target="FuzzC13Diff", run="FuzzC13Diff", fuzztime=60, thorough_only=True),
         ],
